@@ -457,11 +457,23 @@ func runCodecSeq(c *Ctx, r *RuleRun) {
 		if len(call.Call.Args) < 2 {
 			continue
 		}
-		if ms, ok := call.Call.Args[1].(*ssa.MakeSlice); ok {
+		bufLen := int64(-1)
+		switch ms := call.Call.Args[1].(type) {
+		case *ssa.MakeSlice:
 			if k, ok := constInt(ms.Len); ok {
-				r.Check(int(k) == footerSize, p.FnName(f), "footer buffer", p.Pos(instrPos(ms)),
-					fmt.Sprintf("%d bytes = encoded footer size", k), fmt.Sprintf("the footer is read into %d bytes but Footer.Encode writes %d", k, footerSize))
+				bufLen = k
 			}
+		case *ssa.Slice:
+			// make([]byte, K) with constant K compiles to new [K]byte + slice
+			if al, ok := ms.X.(*ssa.Alloc); ok {
+				if arr, ok := al.Type().Underlying().(*types.Pointer).Elem().Underlying().(*types.Array); ok {
+					bufLen = arr.Len()
+				}
+			}
+		}
+		if bufLen >= 0 {
+			r.Check(int(bufLen) == footerSize, p.FnName(f), "footer buffer", p.Pos(instrPos(call)),
+				fmt.Sprintf("%d bytes = encoded footer size", bufLen), fmt.Sprintf("the footer is read into %d bytes but Footer.Encode writes %d", bufLen, footerSize))
 		}
 		// Seek(-K, io.SeekEnd) in the same function
 		for _, b := range f.Blocks {
